@@ -246,7 +246,7 @@ class Run(object):
         self.log.add("out", arr_digest(samples), arr_digest(freqs))
         # ---- state unchanged
         now = M.Snapshot(self.state)
-        if now.meta != self.snap.meta or M.rel_diff(now.dense, self.snap.dense) > 1e-12:
+        if now.meta != self.snap.meta or self.snap.differs(now.dense, 1e-12)[0]:
             self._fail("state-changed", {"before": self.snap.meta, "after": now.meta})
         # ---- shape, bits, distinct rows, frequencies sum to one
         if samples.ndim != 2 or samples.shape[1] != k or samples.shape[0] != len(freqs) or samples.shape[0] < 1:
